@@ -18,8 +18,13 @@ def make_scenarios(ctx, count, flen):
         cfg = G.rand_cfg(rng, mtu=rng.choice([576, 1500, 9216, rng.randint(576, 9216)]))
         glob = G.rand_global(rng, icon_size=rng.choice([0, 300]))
         net = G.Net(rng, cfg["mac"], nmappers=rng.randint(3, 4), nstrangers=3)
-        frames = c05.history(rng, net, flen, tos_pool=TOS_POOL, p_rand_tos=0.03)
-        s = H.Scenario("h%d" % i, meta=dict(frames=frames, own=cfg["mac"]))
+        if i % 4 == 3:
+            # ordinary multi-mapper session traffic (Emits with pauses, probe floods, large-TLV transfers, Resets of both
+            # services) instead of the purpose-built mix
+            frames = G.session_history(rng, net, cfg["mtu"], flen, p_mut=0.0, p_noise=0.0, p_misc=0.1, max_emit=2)
+        else:
+            frames = c05.history(rng, net, flen, tos_pool=TOS_POOL, p_rand_tos=0.03)
+        s = H.Scenario("h%d" % i, meta=dict(frames=frames, own=cfg["mac"], mtu=cfg["mtu"], rxseed=cfg["rxseed"]))
         s.iface(0, **H.iface_kw(cfg)).glob(**G.global_kw(glob))
         s.add("OPT sleep=0")
         for fr in frames:
@@ -30,6 +35,8 @@ def make_scenarios(ctx, count, flen):
 
 def monitor(scn, sobj, rep, sf, ck):
     frames = sobj.meta["frames"]
+    from ..model import RxBuf
+    rx = RxBuf(sobj.meta["mtu"], sobj.meta["rxseed"])
     own = sobj.meta["own"]
     mm = MapperModel()
     judged = 0
@@ -38,7 +45,7 @@ def monitor(scn, sobj, rep, sf, ck):
     for idx, inp in enumerate(scn.inputs):
         if idx >= len(frames):
             break
-        fr = frames[idx]
+        fr = bytes(rx.load(frames[idx]))[:max(36, len(frames[idx]))]      # the frame as the core sees it in its receive buffer
         exp = mm.step(fr)
         if inp.out is None:
             break
